@@ -81,6 +81,8 @@ def random_call(rng, conf, state, kinds, opts):
     t2 = tid() if (t and rng.random() < 0.3) else 0
     if t2 == t:
       t2 = 0
+    if t in present and t2 == 0 and rng.random() < 0.1:
+      t2 = -1         # a malformed trial id next to an existing trial
     return {'rpc': k, 's': s, 'd': {'study': cellmap(0.4), 't': t, 't2': t2,
                                     'trial': cellmap(0.7) if t else {c: 'None' for c in cells}}}
   raise KeyError(k)
